@@ -5,9 +5,11 @@ EXTENDS MC_Router
 
 GoodU == {"/u/{id}", "/u/{id:\\d+}", "/u/{id:digit}/x", "/p/{-id}/{p}", "/lit", "/w/{id:word}-{p:\\d*}", "/lit/", "/u/{id}/", "/n/{id:\\d+|new}"}
 BadU  == {"/u/{}", "/u/{a}{b}", "/u/{id}/{id}", "/u/{id:[}", "/u/{:\\d+}", "/u/{id}/{-id}", "/u/{-id}/{id:\\d+}"}
-KeysU == {"id", "p", "extra"}
-ValsU == {"5", "abc5", "5/6", "", "x y", "new", "brandnew"}
-MapsU == {[k \in S |-> f[k]] : S \in SUBSET KeysU, f \in [KeysU -> ValsU]}
+\* params maps: id absent or one of 7 values, p absent or one of 4, an extra key absent or present
+ValsId == {"5", "abc5", "5/6", "", "x y", "new", "brandnew"}
+ValsP  == {"5", "abc5", "", "x y"}
+Opt(k, V) == {<<>>} \cup {(k :> v) : v \in V}
+MapsU == {a @@ b @@ c : a \in Opt("id", ValsId), b \in Opt("p", ValsP), c \in Opt("extra", {"1"})}
 UrlSetU == {UrlP("", st, <<>>, FALSE, p, m) : st \in BOOLEAN, p \in GoodU \cup BadU, m \in MapsU}
            \cup {UrlP("mux", FALSE, <<>>, FALSE, p, m) : p \in GoodU \cup BadU, m \in MapsU}
 UrlProbesU == UrlSetU
